@@ -8,7 +8,8 @@
 
      parse                 load
      _add_components       add_components   (duplicate component, unknown unit, duplicate variable / cmeta id, reaction)
-     _add_relationships    add_relationships (only `encapsulation` groups; parent bookkeeping; KeyError on unknown names)
+     _add_relationships    add_relationships (only `encapsulation` groups; parent bookkeeping; KeyError on unknown names;
+                                              no component may be its own ancestor: fix: commit 3781b42)
      _determine_connection_direction   direction  (sibling test = equal parents, None = None included; siblings need an
                                                    (out, in) pair of public interfaces, otherwise one component must be
                                                    the parent of the other: the code after the fix: commit 9e0bca6)
@@ -27,7 +28,7 @@ Open Scope Z_scope.
 (* ---- results ---------------------------------------------------------------------------------- *)
 Inductive err :=
 | EUnitsInComp | EUnitsFail (code : Z) | EDupComponent | EUnknownUnit | EDupVariable | EDupCmeta | EReaction
-| ERelCount | EKeyComp | EParentSet | EMissingComp | EMissingVar | ENoDirection
+| ERelCount | EKeyComp | EParentSet | ECycle | EMissingComp | EMissingVar | ENoDirection
 | ETargetAssigned | EConnStuck | EDim | ECmeta | EDefinedTwice
 | EUndefinedIdent | EUnknownCnUnit | EHigherOrder | EBadLhs | EStateNoInit.
 
@@ -139,12 +140,35 @@ Definition group_step (names : list Z) (ps : list (option Z)) (g : group) : resu
   | _ => Error ERelCount
   end.
 
-Definition add_relationships (names : list Z) (gs : list group) : result (list (option Z)) :=
+Definition read_groups (names : list Z) (gs : list group) : result (list (option Z)) :=
   foldM (group_step names) gs (map (fun _ => None) names).
 
-(* ---- connection direction --------------------------------------------------------------------- *)
+(* the encapsulation hierarchy must be a forest (fix: commit 3781b42): walk the parent chain of every component,
+   `seen` = the names met so far; every step adds a new component name, so #components steps suffice *)
+Fixpoint walk (names : list Z) (ps : list (option Z)) (fuel : nat) (seen : list Z) (p : option Z) : result unit :=
+  match p with
+  | None => OK tt
+  | Some q =>
+      if memZ q seen then Error ECycle else
+      match cidx names q with
+      | None => Error EKeyComp
+      | Some i => match fuel with
+                  | O => OutOfFuel
+                  | S f => walk names ps f (q :: seen) (nth i ps None)
+                  end
+      end
+  end.
+
 Definition parent_of (names : list Z) (ps : list (option Z)) (c : Z) : option Z :=
   match cidx names c with Some i => nth i ps None | None => None end.
+
+Definition check_forest (names : list Z) (ps : list (option Z)) : result unit :=
+  foldM (fun _ nm => walk names ps (length names) [nm] (parent_of names ps nm)) names tt.
+
+Definition add_relationships (names : list Z) (gs : list group) : result (list (option Z)) :=
+  bind (read_groups names gs) (fun ps => bind (check_forest names ps) (fun _ => OK ps)).
+
+(* ---- connection direction --------------------------------------------------------------------- *)
 Definition pub_of (vars : list fv) (i : nat) : iface := match nth_error vars i with Some v => fpub v | None => INone end.
 Definition priv_of (vars : list fv) (i : nat) : iface := match nth_error vars i with Some v => fpriv v | None => INone end.
 
